@@ -33,6 +33,11 @@ public:
         if (r.chance(0.15)) {
             p.knobs[QStringLiteral("redirects")] = r.range(1, 2);   // see-other-host on the first connection(s)
         }
+        if (r.chance(0.15)) {
+            // no explicit host: SRV lookup (simulated: no records) and the built-in address list, direct TLS on 5223 first,
+            // plain TCP on 5222 next; a socket error during negotiation makes the client fail over to the next address
+            p.knobs[QStringLiteral("dnsLookup")] = 1;
+        }
         p.ops.append(mkop(QStringLiteral("connect")));
         int attempts = (int)r.range(1, 3);
         for (int a = 0; a < attempts; ++a) {
@@ -141,7 +146,12 @@ public:
                         w.resolveConnect(false);
                         cutInsideNegotiation = true;
                         onStepInvariants();
-                        checkDisconnectedState(QStringLiteral("connect_refused"));
+                        if (w.connectPending) {
+                            // the client went on to the next address of its list
+                            w.probe("failed_over_to_next_address");
+                        } else {
+                            checkDisconnectedState(QStringLiteral("connect_refused"));
+                        }
                         w.afterStep();
                         continue;
                     }
@@ -211,6 +221,7 @@ public:
                         w.probe("cut_between_auth_and_session");
                     }
                     QString where;
+                    const int linksBefore = w.links.size();
                     if (w.connectPending) {
                         // the TCP connection of this attempt (e.g. the one following a redirect) does not exist yet
                         w.resolveConnect(false);
@@ -284,8 +295,8 @@ public:
                     }
                     if (where.isEmpty()) {
                         w.probe("nothing_to_cut");
-                    } else if (w.connectPending) {
-                        // a reconnect started synchronously (redirect in progress)
+                    } else if (w.connectPending || w.links.size() > linksBefore) {
+                        // a new connection was started synchronously (redirect, or next address of the list)
                         w.probe("reconnect_started_synchronously");
                     } else {
                         checkDisconnectedState(where + (established ? QStringLiteral(":session") : QStringLiteral(":negotiation")));
